@@ -18,6 +18,7 @@ Sweep units: for ordered pairs of request kinds, thread A is pre-empted exactly
 once at step s, for every s of its solo trace, B runs to completion, A resumes
 (the "exhaustive up to one pre-emption" part of the quantifier).
 """
+import contextvars
 import io
 import re
 import random
@@ -60,7 +61,7 @@ ASSUMPTIONS = [
 
 PREFIXES = (REPO.rstrip('/') + '/ombott/', echo.__file__.rsplit('/', 1)[0] + '/')
 KINDS = ['echo_get', 'echo_post', 'echo_head', 'upload', 'raise_err', 'raise_resp', 'teapot', 'crash', 'gen',
-         'notfound', 'notallowed', 'json404', 'badchunk', 'chunked_ok', 'big', 'badpath', 'echo_put', 'hookcrash', 'badchunk_json', 'badjson', 'goodjson', 'badchunk_sizeline', 'busy_str', 'limit_num', 'upload_typed', 'upload_plain', 'badmultipart', 'boom_fixed_url', 'fixed_get', 'fixed_post', 'fixed_fail']
+         'notfound', 'notallowed', 'json404', 'badchunk', 'chunked_ok', 'big', 'badpath', 'echo_put', 'hookcrash', 'badchunk_json', 'badjson', 'goodjson', 'badchunk_sizeline', 'busy_str', 'limit_num', 'upload_typed', 'upload_plain', 'badmultipart', 'boom_fixed_url', 'fixed_get', 'fixed_post', 'fixed_fail', 'panel', 'public', 'session']
 _MARK = re.compile(r'Z\d+z')
 
 
@@ -159,6 +160,14 @@ def environ_of(spec):
         method, path = 'POST', '/body/' + m
         body = b'3\r\n' + m.encode()[:3] + b'\r\n1'
         kw = {'chunked': True}
+    elif kind == 'panel':
+        path = '/panel'
+    elif kind == 'public':
+        path = '/public'
+    elif kind == 'session':
+        path = '/session'
+        sess = cookie_encode(('sess', {'visits': 3, 'seen': ['x']}), 'k3y').decode()
+        headers['Cookie'] = f'c=c{m}; sess="{sess}"'        # the session cookie is byte-identical for every request
     elif kind == 'boom_fixed_url':
         path = '/boom'
     elif kind in ('fixed_get', 'fixed_post', 'fixed_fail'):
@@ -178,7 +187,7 @@ def environ_of(spec):
     else:
         raise HarnessError(f'unknown kind {kind}')
     query = f'm={m}&x=1' + ('&hc=1' if kind == 'hookcrash' else '')
-    if kind in ('boom_fixed_url', 'fixed_get', 'fixed_post', 'fixed_fail'):
+    if kind in ('boom_fixed_url', 'fixed_get', 'fixed_post', 'fixed_fail', 'panel', 'public', 'session'):
         query = 'x=1'
     env = make_environ(method, path, query, headers, stream=io.BytesIO(body or b''), **kw)
     env['sim.m'] = m
@@ -349,7 +358,7 @@ def gen_case(rng, tier):
     #  handle exceptions - reproduced in ombott's BodyMixin._body; see DESIGN.md 10)
     est = 450 * sum(len(t) if isinstance(t, list) else 1 for t in specs) * (6 if gran == 'opcode' else 1)
     return {'threads': specs, 'cfg': cfg, 'gran': gran, 'plan': gen_plan(rng, est, n),
-            'cold': rng.random() < 0.15}
+            'cold': rng.random() < 0.15, 'ctx_copy': rng.random() < 0.2}
 
 
 SWEEP_KINDS_QUICK = ['echo_post', 'raise_err', 'crash', 'gen', 'notfound', 'badchunk', 'upload', 'teapot']
@@ -413,12 +422,22 @@ def run_case(case):
             overlap[0] += 1
     s.on_switch = on_switch
 
+    base_ctx = contextvars.copy_context() if case.get('ctx_copy') else None
+
     def make(i):
+        def work():
+            for j, sp in enumerate(lists[i]):
+                serve(app, sp, outs[i][j])
+
         def fn():
             inflight.add(i)
             try:
-                for j, sp in enumerate(lists[i]):
-                    serve(app, sp, outs[i][j])
+                if base_ctx is not None:
+                    # a worker that runs the call inside a copy of the context in which the application was built
+                    # (what asyncio.to_thread / run_in_executor with a copied context do)
+                    base_ctx.copy().run(work) if hasattr(base_ctx, 'copy') else contextvars.copy_context().run(work)
+                else:
+                    work()
             finally:
                 inflight.discard(i)
         return fn
